@@ -151,7 +151,7 @@ partial def elabStmts (ps : PS) (inst : Nat) (stmts : List Stmt) (env : List (St
        | none => ({ e with err := true }, env))
     | "acc" => simple .acc [a 0]
     | "pass" => simple .pass [a 0]
-    | "gate" =>
+    | "gate" | "ngate" =>   -- ngate: the same node built as a native node (generic readiness gate of node.cpp)
       let f := st.args.getD 2 "VV"
       simple .gate [a 0 (f.front == 'U'), a 1 ((f.drop 1).toString.front == 'U')]
     | "script" => if st.args.length ≥ 2 then simple (.script (num 0)) [a 1 true] else simple (.script (num 0)) []
@@ -225,7 +225,7 @@ partial def elabStmts (ps : PS) (inst : Nat) (stmts : List Stmt) (env : List (St
          let cenv : List (String × Tgt) := (List.range sd.arity).zip (args.filterMap id) |>.map fun (i, t) => ("$" ++ toString i, t)
          let body := sd.body.map fun s =>
            let args' := match s.kind with
-             | "add" | "gate" => (s.args.take 2).map (shiftArg off) ++ s.args.drop 2
+             | "add" | "gate" | "ngate" => (s.args.take 2).map (shiftArg off) ++ s.args.drop 2
              | "acc" | "pass" | "sink" | "probe" => s.args.map (shiftArg off)
              | "thrower" => (s.args.take 1) ++ (s.args.drop 1).map (shiftArg off)
              | "script" => (s.args.take 1) ++ (s.args.drop 1).map (shiftArg off)
